@@ -117,6 +117,8 @@ def checkExtract (op : ExtractOp) (rs : List OutExt) : Option String :=
     if fs.length != r.vals.length then some "a reported value has no field definition" else
     let mine := kind.filter fun f => r.names.contains f.name
     let anyUnreach := mine.any fun f => !reachable f
+    -- a device that answers as the specification requires delivers the whole window: every field must be inside it
+    if !truncated && anyUnreach then some "a field lies outside the window of the request that carries it: a conforming reply cannot deliver it" else
     if r.status == "failed" then
       if !op.lenient && anyUnreach then none
       else some "extraction failed as a whole although every field is reachable (or lenient mode)"
